@@ -4,6 +4,21 @@ claimed / not_applicable partition is always consistent)."""
 import json
 
 CLAIMS = {
+ 'C01': dict(
+   text='Static interference-freedom argument over all 117 view classes: every __iter__ creates a fresh iterator, no '
+        'constructor stores a one-shot resource, and the instance attributes written by iterator-reachable code '
+        '(enumerated from the source on every run; 15 fields in 7 classes today) are exactly the reviewed ones and '
+        'each obeys its discipline (snapshot/atomic: never read lazily from a generator body; append-only with a '
+        'high-water-mark guard; publish-once; seek-before-use on the shared spill file; monotone flag; pure metric). '
+        'No process-global RNG/state in view code. If no generator reads state another iterator can change, the rows '
+        'an iterator yields are a function of its own frame for EVERY interleaving - the schedule space the tests '
+        'sample twice.',
+   ref='DESIGN.md §4 C01',
+   note='sufficient condition, given deterministic sources and side-effect-free callbacks; does not decide that two '
+        'passes see the same external data; the discipline table is reviewed by hand (trusted), the structural '
+        'obligations of each discipline are checked on every run; dummytable is a recorded known finding',
+   technique='class-level shared-state enumeration (call graph from __iter__) + per-field discipline check '
+             '(guard/dominance patterns, generator vs atomic code, typestate for publish-then-mutate)'),
  'C11': dict(
    text='Static decision that buffersize/tempdir/cache/presorted can only select a strategy: every one of the ~60 call '
         'sites between callables that accept them forwards the caller\'s own argument unchanged; defaults are the '
